@@ -5,7 +5,7 @@
    byte sequences (lexcmp on utf8_encode). *)
 From Coq Require Import ZArith List Bool Sorted.
 From EV Require Import Res Arr UniqueSpec Unique UniqueOrder UniqueUtf8 UniqueSort UniqueStore UniqueIsin
-                       UniqueScan UniqueMain UniqueCor.
+                       UniqueScan UniqueMain UniqueCor UniqueSafe.
 Import ListNotations.
 Open Scope Z_scope.
 
@@ -32,6 +32,21 @@ Theorem isin_binary_search_correct : forall fuel v tests,
   bsearch fuel v tests 0 (len tests - 1) = Ok (existsb (eqc lexcmp v) tests).
 Proof. exact UniqueIsin.bsearch_all. Qed.
 Print Assumptions isin_binary_search_correct.
+
+Example lesorted_example : lesorted [[]; [97]; [97]; [97; 98]; [195; 169]].
+Proof. apply StronglySorted_lesorted. repeat constructor. Qed.
+
+(* full, ANY arrays (malformed offsets, unsorted tests, invalid UTF-8): no out-of-bounds access,
+   termination within the fuel — the memory-safety / termination half for the two kernels *)
+Theorem isin_kernel_total : forall fuel tests ind vals,
+  (length tests < fuel)%nat -> exists r, isin_indexed_string_speedup fuel tests ind vals = Ok r.
+Proof. exact UniqueSafe.isin_kernel_total. Qed.
+Print Assumptions isin_kernel_total.
+
+Theorem unique_scan_total : forall wi wv wc ind vals,
+  exists s, get_indexed_string_unique wi wv wc ind vals = Ok s.
+Proof. exact UniqueSafe.unique_scan_total. Qed.
+Print Assumptions unique_scan_total.
 
 (* full: the scan returns each distinct row once, with first-occurrence index / inverse / counts *)
 Theorem unique_scan_correct : forall wi wv wc xs ind vals,
@@ -119,6 +134,11 @@ Theorem isin_indexed_correct : forall (ts:list (option (list Z))) xs ind vals fu
   = Ok (spec_isin lexcmp xs (map (option_map utf8_encode) ts)).
 Proof. exact UniqueIsin.isin_indexed_correct. Qed.
 Print Assumptions isin_indexed_correct.
+
+Example isin_hyp_example :
+  Forall (fun s => valid_strb s = true) (somes [Some [97; 233]; None; Some []; Some [97; 233]]) /\
+  (4 >= isin_fuel (somes [Some [97; 233]; None; Some []; Some [97; 233]])%Z)%nat.
+Proof. split; [repeat constructor|cbn; auto]. Qed.
 
 Theorem isin_membership : forall (ts:list (option (list Z))) xs ind vals fuel,
   Forall (fun s => valid_strb s = true) (somes ts) -> stored xs ind vals ->
